@@ -1,8 +1,17 @@
 import Modbus.Lemmas.Crc
 import Modbus.Model.Rtu
 /-
-Error detection at register level: bursts of at most 16 bits (back-step argument) and bit pairs
-(order of the round on the value 1), on the specification's bit-serial register `Spec.feed`.
+Error detection by the RTU checksum.
+ 1. Register level, on the specification's bit-serial register `Spec.feed`: a non-empty error window of
+    at most 16 bits never returns the zero register to zero (back-step argument, `feed_window_ne_zero`);
+    two set bits at distance d do so only if `L^d 1 = 1`, excluded for 1 ≤ d ≤ 2047 by one kernel
+    computation on a `Nat` copy of the round (`orbit_2047`, `feed_two_ne_zero`).
+ 2. Frame level: `xorBytes`, `CrcOk` (the comparison made by `rtu::extract_frame` at full length),
+    `errBit` (transmission-order bit of a string); linearity over equal-length strings
+    (`crcRaw_xorBytes`), acceptance ⇔ zero residue (`crcOk_iff_residue`), hence
+    `crcOk_xor_iff : CrcOk (F ⊕ E) ↔ crcRaw 0 E = 0` for valid `F`.
+ 3. Classes of error patterns (`SingleBit`, `Burst16`, `DoubleBit`, the concrete `bitError n p`) and the
+    link between `CrcOk` and `Rtu.extractFrame f (f.length - 3)` (`extract_full`, `extract_full_ok`).
 -/
 namespace Modbus
 namespace Crc
